@@ -44,10 +44,12 @@ class Table:
             call, x = 'fd_close', int(f[1])
         else:
             call, x = f[1], int(f[2])
-        xc = self.cls(x)
-        if not self.live(x):
+        # path_rename takes two directory handles: the second one is the pre-open (3)
+        dead = [y for y in ([x, 3] if call.startswith('path_rename') else [x]) if not self.live(y)]
+        xc = self.cls(dead[0] if dead else x)
+        if dead:
             if errno != EBADF:
-                bad.append((call, xc, 'errno=%d' % errno, '%s on %s descriptor %d returned %d, not EBADF (8)' % (call, xc, x, errno)))
+                bad.append((call, xc, 'errno=%d' % errno, '%s on %s descriptor %d returned %d, not EBADF (8)' % (call, xc, dead[0], errno)))
             if errno == 0 and 'fd' in d:
                 self.issue(int(d['fd']), 'file', [])
             return bad
@@ -126,6 +128,8 @@ def judge(ex, line, r, report=True):
             print('MACHINERY-ERROR: history %r crashed at step %d, but its prefix passed earlier' % (line, k)); sys.exit(2)
         f = ops[k].split(',')
         call, x = ('path_open', 3) if f[0] in ('of', 'od') else ('fd_close', int(f[1])) if f[0] == 'c' else (f[1], int(f[2]))
+        if call.startswith('path_rename') and tbl.live(x):
+            x = 3
         if report:
             ex.crash(line, r, '%s|%s' % (call, tbl.cls(x).replace('live-', 'live:')), describe)
         return None
